@@ -37,10 +37,12 @@ pub trait LexicographicIterator {
 
     /// Binary search for the first string > target
     fn seek_upper_bound(&mut self, target: &str) -> std::result::Result<bool, Self::Error> {
-        let exact_match = self.seek_lower_bound(target)?;
-        if exact_match {
-            // Move to next string after exact match
-            self.next()?;
+        self.seek_lower_bound(target)?;
+        // Skip every string equal to the target (a sorted collection may hold duplicates)
+        while self.current() == Some(target) {
+            if !self.next()? {
+                break;
+            }
         }
         Ok(false) // Never an exact match by definition
     }
@@ -86,23 +88,20 @@ impl<'a> SortedVecLexIterator<'a> {
         Self { strings, position }
     }
 
-    /// Binary search implementation optimized for string comparison
-    fn binary_search_by<F>(&self, mut compare: F) -> std::result::Result<usize, usize>
-    where
-        F: FnMut(&str) -> Ordering,
-    {
+    /// Binary search for the index of the first string that is >= `target`
+    /// (`len` if there is none). With duplicates this is the first element of the run.
+    fn lower_bound(&self, target: &str) -> usize {
         let mut left = 0;
         let mut right = self.strings.len();
 
         while left < right {
             let mid = left + (right - left) / 2;
-            match compare(&self.strings[mid]) {
+            match self.strings[mid].as_str().cmp(target) {
                 Ordering::Less => left = mid + 1,
-                Ordering::Greater => right = mid,
-                Ordering::Equal => return Ok(mid),
+                Ordering::Greater | Ordering::Equal => right = mid,
             }
         }
-        Err(left)
+        left
     }
 }
 
@@ -154,15 +153,13 @@ impl<'a> LexicographicIterator for SortedVecLexIterator<'a> {
     }
 
     fn seek_lower_bound(&mut self, target: &str) -> std::result::Result<bool, Self::Error> {
-        match self.binary_search_by(|s| s.cmp(target)) {
-            Ok(pos) => {
-                self.position = Some(pos);
-                Ok(true) // Exact match
-            }
-            Err(pos) => {
-                self.position = if pos < self.strings.len() { Some(pos) } else { None };
-                Ok(false) // No exact match
-            }
+        let pos = self.lower_bound(target);
+        if pos < self.strings.len() {
+            self.position = Some(pos);
+            Ok(self.strings[pos] == target) // Exact match?
+        } else {
+            self.position = None;
+            Ok(false) // Every string is smaller than the target
         }
     }
 
